@@ -199,6 +199,9 @@ def check(prog: Program, res: Result) -> None:
     c09.check_alloc(prog, res, rule="C10-alloc")
     check_col(prog, res)
     check_pair(prog, res)
+    res.borrow(c09.check_truth, "C10-truth", prog)
+    from . import _nanred
+    _nanred.check_nan_reductions(prog, res, "C10-nan", ["sleap_nn.tracking.utils:get_bbox", "sleap_nn.tracking.utils:get_centroid"], floor=3)
     from . import _match
     _match.check_greedy(prog, res, "C10-match")
     res.assumptions.append("identity continuity over histories (numerical scores, matcher optimality) is not decided")
